@@ -11,6 +11,13 @@ pub fn tau(t: usize) -> f64 {
     1e-12 + 1e-15 * t * t.sqrt()
 }
 
+/// absolute floor added to every tau*M tolerance: rounding granularity of the subnormal range
+/// (8 units of 5e-324 per element that entered the computation). It matters only when M itself is
+/// subnormal, where tau*M underflows to zero and would demand exact real arithmetic.
+pub fn tol_floor(k: usize) -> f64 {
+    4e-323 * (k as f64 + 2.0)
+}
+
 pub fn ulp(x: f64) -> f64 {
     let x = x.abs();
     if !x.is_finite() {
